@@ -174,3 +174,29 @@ def wide_array_specs():
     n3 = ("q0", "q1", "q2")
     out.append(("3 names big exponents array", spec(n3, (2,), [((0, 0, 1700), [1, 0]), ((0, 1000, 700), [-1, 2]), ((70000, 0, 0), [0, 1]), ((0, 0, 0), [3, 0])])))
     return out
+
+
+def dense_specs():
+    """Polynomials with MANY terms (70 .. 231), many of them of equal total degree: every monomial up to a degree, with
+    coefficient masks that move the leading term around.  Regimes where sorting kernels stop being insertion sorts,
+    text headers grow beyond any fixed buffer, and per-term loops run long.
+    -> list of (label, spec)"""
+    out = []
+    for names, deg, exact in ((("q0", "q1"), 20, False), (("q0", "q1", "q2"), 8, False), (("q0", "q1", "q2", "q3"), 5, False),
+                              (("q1", "q2", "q10"), 10, True), (("q0", "q1"), 69, True)):
+        mons = [m for m in monomials(len(names), deg) if not exact or sum(m) == deg]
+        n = len(mons)
+        # 0-d, every coefficient non-zero
+        out.append((f"{len(names)} names deg{'=' if exact else '<='}{deg} all {n} terms", spec(names, (), [(m, (i % 7) - 3 or 4) for i, m in enumerate(mons)])))
+        # shape (5,): element j keeps the terms i with (3*i + j) % 5 != 0 and (i*i + j) % 3 != 0
+        terms = []
+        for i, m in enumerate(mons):
+            col = [((i + j) % 5 + 1) * (1 if (i + j) % 2 else -1) if (3 * i + j) % 5 and (i * i + j) % 3 else 0 for j in range(5)]
+            if any(col):
+                terms.append((m, col))
+        out.append((f"{len(names)} names deg{'=' if exact else '<='}{deg} masked (5,)", spec(names, (5,), terms)))
+        # the array of all the monomials themselves, in a scrambled order
+        order = sorted(range(n), key=lambda i: ((i * 7919) % 104729, i))
+        terms = [(mons[i], [1 if j == pos else 0 for j in range(n)]) for pos, i in enumerate(order)]
+        out.append((f"{len(names)} names deg{'=' if exact else '<='}{deg} the {n} monomials as an array", spec(names, (n,), terms)))
+    return out
